@@ -60,7 +60,9 @@ CondBodies == <<
   Bin("in", RVar, V(G("top"))),                       \* refers to the resource
   T,                                                  \* constant: dropped when satisfied
   Bin("and", NC, Bin("eq", CK, L1)),                  \* rewritten when one side is known
-  ErrE >>                                             \* fails
+  ErrE,                                               \* fails
+  [op |-> "isIn", a |-> PVar, ty |-> "U", e |-> RVar],                  \* `is .. in`: type test on one part, membership in another
+  [op |-> "isIn", a |-> PVar, ty |-> "U", e |-> Acc(CVar, "e")] >>
 KindPatterns == << <<"when", "when", "when">>, <<"unless", "when", "when">>, <<"when", "unless", "when">>, <<"when", "when", "unless">> >>
 LoopShapes == <<
   [BaseEnv EXCEPT !.p = Unk("x"), !.c = Ign],
@@ -68,7 +70,9 @@ LoopShapes == <<
   [BaseEnv EXCEPT !.c = Ign, !.r = Unk("x"), !.p = Unk("y")],
   [BaseEnv EXCEPT !.c = Ign],
   [BaseEnv EXCEPT !.p = Unk("x")],
-  [BaseEnv EXCEPT !.c = VRec([k |-> Unk("x"), s |-> VStr(<<97>>)]), !.r = Ign] >>
+  [BaseEnv EXCEPT !.c = VRec([k |-> Unk("x"), s |-> VStr(<<97>>)]), !.r = Ign],
+  [BaseEnv EXCEPT !.p = Unk("x"), !.r = Ign],
+  [BaseEnv EXCEPT !.p = Unk("x"), !.c = Ign, !.r = Unk("y")] >>
 NB == Len(CondBodies)
 LoopCount == NB * NB * NB * Len(KindPatterns) * 2
 LoopPolicy(i) ==        \* i in 0 .. LoopCount - 1
